@@ -450,12 +450,18 @@ the item), and the codes read back by `TryFrom<u16>` to the same variants -/
 theorem question_codes_out (t : QTYPE) (c : QCLASS) :
     qtypeCodeWith (Gen.Env.qtypeToCode.getD modelQtypeArms) t = some t.toCode ∧
     qclassCodeWith (Gen.Env.qclassToCode.getD modelQclassArms) c = some c.toCode := by
-  have h1 : Gen.Env.qtypeToCode.getD modelQtypeArms = modelQtypeArms := by decide
-  have h2 : Gen.Env.qclassToCode.getD modelQclassArms = modelQclassArms := by decide
-  rw [h1, h2]
+  -- (arm by arm, through `lookup`: the order in which the source lists its arms does not matter)
+  have q0 : (Gen.Env.qtypeToCode.getD modelQtypeArms).lookup "TYPE" = some none := by decide
+  have q1 : (Gen.Env.qtypeToCode.getD modelQtypeArms).lookup "IXFR" = some (some 251) := by decide
+  have q2 : (Gen.Env.qtypeToCode.getD modelQtypeArms).lookup "AXFR" = some (some 252) := by decide
+  have q3 : (Gen.Env.qtypeToCode.getD modelQtypeArms).lookup "MAILB" = some (some 253) := by decide
+  have q4 : (Gen.Env.qtypeToCode.getD modelQtypeArms).lookup "MAILA" = some (some 254) := by decide
+  have q5 : (Gen.Env.qtypeToCode.getD modelQtypeArms).lookup "ANY" = some (some 255) := by decide
+  have c0 : (Gen.Env.qclassToCode.getD modelQclassArms).lookup "CLASS" = some none := by decide
+  have c1 : (Gen.Env.qclassToCode.getD modelQclassArms).lookup "ANY" = some (some 255) := by decide
   constructor
-  · cases t <;> simp [qtypeCodeWith, modelQtypeArms, List.lookup, QTYPE.toCode]
-  · cases c <;> simp [qclassCodeWith, modelQclassArms, List.lookup, QCLASS.toCode]
+  · cases t <;> simp [qtypeCodeWith, q0, q1, q2, q3, q4, q5, QTYPE.toCode]
+  · cases c <;> simp [qclassCodeWith, c0, c1, QCLASS.toCode]
 
 /-- the special question types and the wildcard class come back from their own codes -/
 theorem question_codes_round :
